@@ -5,6 +5,8 @@ Oracle: the dispatch hook (H1) counts instructions and samples stack depths and 
 evaluation that would never end by itself must come back to the harness as a limit error."""
 import random
 
+import os
+
 from hypothesis import strategies as st
 
 from .. import runner
@@ -91,6 +93,8 @@ SIZE_MARKERS = ["too large", "too long", "maximum array size", "too big", "illeg
 UNCATCHABLE_MARKERS = ["too long evaluation", "too deep recursion", "stack overflow", "eval cost", "can't catch"]
 shape_names = sorted(SHAPES)
 cases = st.fixed_dictionaries(dict(shape=st.sampled_from(shape_names), catch=st.integers(0, 3), cfg=st.integers(0, 5),
+                                   # a master without error_handler(): the driver then reports errors itself and makes no apply at the moment of the error
+                                   master=st.sampled_from(["std", "std", "absent"]),
                                    n=st.sampled_from([1, 7, 8, 9, 31, 33, 100, 257, 1000, 2001, 5000, 20000, 70000, 100001, 1000000])))
 
 
@@ -126,12 +130,16 @@ class Pool:
         self.configs = make_configs(random.Random(ctx.hseed))
         self.workers = {}
 
-    def get(self, i):
-        w = self.workers.get(i)
+    def get(self, i, master="std"):
+        w = self.workers.get((i, master))
         if w is None:
             conf = {k: str(v) for k, v in self.configs[i].items()}
-            w = Worker(self.ctx.scratch("w%d" % i), conf=conf, timeout=20, mudlib_files={"t/c04peer.c": PEER, "big.txt": "0123456789abcdef\n" * 20000})
-            self.workers[i] = w
+            files = {"t/c04peer.c": PEER, "big.txt": "0123456789abcdef\n" * 20000}
+            if master == "absent":
+                from ..worker import BASE_MUDLIB
+                files["master.c"] = open(os.path.join(BASE_MUDLIB, "master.c")).read().replace("mixed error_handler(", "mixed error_handler_absent(")
+            w = Worker(self.ctx.scratch("w%d%s" % (i, master)), conf=conf, timeout=20, mudlib_files=files)
+            self.workers[(i, master)] = w
         return w
 
     def close(self):
@@ -162,7 +170,7 @@ def size_of(v):
 
 def evaluate_case(ctx, pool, case):
     cfg = pool.configs[case["cfg"]]
-    w = pool.get(case["cfg"])
+    w = pool.get(case["cfg"], case.get("master", "std"))
     src = render(case)
     w.write("t/c04.c", src)
     mec = cfg["MaxEvaluationCost"]
